@@ -146,7 +146,14 @@ func (t *sseClientTransport) start(ctx context.Context) error {
 	t.sseConn.mutex.Lock()
 	t.sseConn.ctx = sseCtx
 	t.sseConn.cancel = cancel
+	// close() marks the transport closed before it takes this lock: if it ran since the test at the
+	// top, it found no cancel func to call, and the stream must not be opened any more.
+	closedMeanwhile := t.closed.Load()
 	t.sseConn.mutex.Unlock()
+	if closedMeanwhile {
+		cancel()
+		return errors.New("transport is closed")
+	}
 
 	// The stream context outlives this call, but while the connection is being established the caller's
 	// context governs: its cancellation or deadline also aborts the GET and the reading of an error body,
